@@ -663,6 +663,8 @@ fn hostile_edit_char(r: &mut Rng, home: &[char]) -> char {
         0 | 1 => *r.pick(home),
         2 => *r.pick(&['=', '.', '\n', ' ', '\u{0}', '\r', '\t', ':', '/', '_', '-', 'A', 'a', '0', '%', '"', '\\', '\u{7f}', '\u{80}']),
         3 => *r.pick(&['é', 'ａ', 'Ａ', '０', '．', '－', 'ß', 'İ', 'ı', 'K', '\u{200b}', '\u{feff}', '\u{2028}', '😀']),
+        // code points whose low byte is an allowed ASCII character (truncating casts): Ł->A, š->a, Å->+, 中->-, ȯ->/, 丮->., ㄰->0, 吽->=
+        4 => *r.pick(&['\u{0141}', '\u{0161}', '\u{212b}', '\u{4e2d}', '\u{022f}', '\u{4e2e}', '\u{3130}', '\u{543d}', '\u{1005f}', '\u{017e}']),
         _ => hostile_char(r),
     }
 }
